@@ -104,21 +104,25 @@ func runC01(ctx *report.Ctx) {
 	// F1-layout: the flow of a program is that of its statements however the script is laid out: the F1 family once
 	// more (single node), under three legal but unusual layouts (CRLF / CR line ends, tab indentation, a blank line,
 	// a whitespace-only line or a comment line before every body line)
-	ctx.Bound("F1-layout", "F1 alphabet, <=3 statements in one node plus a target, x {CRLF + blank line before every line, CR + indented comment lines, tabs + whitespace-only lines}")
+	ctx.Bound("F1-layout", "F1 alphabet, <=3 statements in one node plus a target, x {CRLF + blank line before every line, CR + indented comment lines, tabs + whitespace-only lines, canonical} x every line and option label starting with one of {nothing, /, -, =, <, >, é}")
 	part(ctx, "F1-layout", -1, func(c *explore.Chooser) {
 		g := &progGen{c: c, rem: 3, kinds: []string{"line", "opts", "if", "setT", "jump", "stop"}, maxDepth: 2, maxOpts: 2, maxCl: 2, conds: condsF, extraTargets: []string{"Z"}}
+		// every line and option label starts with a character the lexer looks at when it decides what a line is
+		g.linePrefix = []string{"", "/", "-", "=", "<", ">", "é"}[c.Choose(7, "line-start")]
 		p := g.program(1)
 		p.Nodes = append(p.Nodes, &yc.Node{Title: "Z", Body: []*yc.Stmt{yc.Line("inZ")}})
-		which := c.Choose(3, "layout")
+		which := c.Choose(4, "layout")
 		if !c.Mine() {
 			return
 		}
-		lay := []*yc.Layout{{EOL: "\r\n"}, {EOL: "\r"}, {Unit: "\t"}}[which]
-		filler := []string{"", "        // note", "  "}[which]
-		lay.Gaps = map[int]map[int][]string{0: {}}
-		for i, ln := range yc.Lines(p, lay)[0] {
-			if ln.InBody {
-				lay.Gaps[0][i] = []string{filler}
+		lay := []*yc.Layout{{EOL: "\r\n"}, {EOL: "\r"}, {Unit: "\t"}, {}}[which]
+		if which < 3 {
+			filler := []string{"", "        // note", "  "}[which]
+			lay.Gaps = map[int]map[int][]string{0: {}}
+			for i, ln := range yc.Lines(p, lay)[0] {
+				if ln.InBody {
+					lay.Gaps[0][i] = []string{filler}
+				}
 			}
 		}
 		walkProgram(ctx, c, "F1-layout", p, stdHost, wo, lay)
